@@ -338,15 +338,22 @@ func (p *printer) expr1(e *Expr) {
 		}
 		// a predicate is any Go expression: spell some with a binary operator at the top (same value, the
 		// operand still evaluated exactly once), which the generator has to keep together when it negates it
+		// (an operator is only put BEHIND a text without line comments and line ends: "a // c\n || false" is no Go
+		// expression, the line end after "a" ends the statement)
+		tailOK := !strings.Contains(code, "//") && !strings.Contains(code, "\n")
 		switch p.v(10) {
 		case 0:
 			code = "false || " + code
 		case 1:
-			code = code + " || false"
+			if tailOK {
+				code = code + " || false"
+			}
 		case 2:
 			code = "true && " + code
 		case 3:
-			code = code + " && true"
+			if tailOK {
+				code = code + " && true"
+			}
 		}
 		p.sb.WriteString("{ " + code + " }")
 		p.sp(" ")
